@@ -88,6 +88,13 @@ def parseOp (ws : List String) : Option Op :=
   | ["tget", n, pre, labs] => do some (.tget (← n.toNat?) (← parseLabels pre) (← parseLabels labs))
   | ["mget", n, last, pre, rows] => do some (.mget (← n.toNat?) (← parseBool last) (← parseLabels pre) (← parseLabels rows))
   | ["chain", gs] => do some (.chain (← if gs == "=" then some [] else (gs.splitOn ",").mapM parseMig))
+  | ["tassign", t, n, a] => do some (.tassign (← t.toNat?) (← n.toNat?) (← parseBool a))
+  | ["lassign", l, n, a] => do some (.lassign (← l.toNat?) (← n.toNat?) (← parseBool a))
+  | ["massign", m, n, a] => do some (.massign (← m.toNat?) (← n.toNat?) (← parseBool a))
+  | ["mcomb", m, m2, a] => do some (.mcomb (← m.toNat?) (← m2.toNat?) (← parseBool a))
+  | ["tpurge", t] => do some (.tpurge (← t.toNat?))
+  | ["lpurge", l] => do some (.lpurge (← l.toNat?))
+  | ["mpurge", m] => do some (.mpurge (← m.toNat?))
   | ["taadd", n, t] => do some (.taadd (← n.toNat?) (← t.toNat?))
   | _ => none
 
